@@ -63,10 +63,14 @@ class SLock:
 
 
 class Scheduler:
-    def __init__(self, prefix=(), opcode_targets=(), line_targets=(), call_targets=(), horizon=20000):
+    def __init__(self, prefix=(), opcode_targets=(), line_targets=(), call_targets=(), horizon=20000,
+                 opcode_files=(), line_files=()):
         self.prefix = list(prefix)
         self.opcode_targets = set(opcode_targets)
         self.line_targets = set(line_targets)
+        # whole source files: every function defined in them (also ones added later) is a target
+        self.opcode_files = set(opcode_files)
+        self.line_files = set(line_files)
         self.call_targets = set(call_targets)
         self.horizon = horizon
         self.threads = []  # dicts: id, fn, sem, thread, done, blocked_on, exc, result
@@ -138,12 +142,12 @@ class Scheduler:
     # -- tracing ----------------------------------------------------------------
     def _tracer(self, frame, event, arg):
         code = frame.f_code
-        if code in self.opcode_targets:
+        if code in self.opcode_targets or code.co_filename in self.opcode_files:
             frame.f_trace_opcodes = True
             if code in self.call_targets:
                 self.point(("call", code.co_name))
             return self._local_opcode
-        if code in self.line_targets:
+        if code in self.line_targets or code.co_filename in self.line_files:
             if code in self.call_targets:
                 self.point(("call", code.co_name))
             return self._local_line
